@@ -639,6 +639,14 @@ func (g *pgen) command() *doc.Node {
 		m.Map = append(m.Map, doc.P("signature", doc.M(doc.P("algorithm", doc.S("EdDSA")), doc.P("signed_fields", sf), doc.P("value", doc.S("eyJhbGciOiJFZERTQSJ9..c2ln")))))
 	}
 	g.extras(m, "command.extras", reserved, 4)
+	if g.chance(12) {
+		// a key of a lower-priority step family next to the command keys: an ordinary unknown field, the step stays a command step
+		k := Pick(g.r, []string{"wait", "waiter", "block", "input", "manual", "trigger", "group"})
+		if !m.Has(k) {
+			m.Map = append(m.Map, doc.P(k, g.strNode("command.extras")))
+			g.feat("command:lower-priority-family-key")
+		}
+	}
 	// merge from a template
 	if g.o.Sharing && len(g.templates) > 0 && g.chance(3) {
 		t := g.templates[g.r.IntN(len(g.templates))]
@@ -1040,6 +1048,23 @@ func (g *pgen) contentsStep(family []string, class string, valueKind int) *doc.N
 	}
 	reserved["key"], reserved["if"] = true, true
 	g.extras(m, class, reserved, 4)
+	if g.chance(10) {
+		// a key of a lower-priority family rides along as ordinary content (wait < block < trigger < group)
+		order := []string{"wait", "waiter", "block", "input", "manual", "trigger", "group"}
+		rank := map[string]int{"wait": 0, "waiter": 0, "block": 1, "input": 1, "manual": 1, "trigger": 2, "group": 3}
+		var lower []string
+		for _, k := range order {
+			if rank[k] > rank[fam] {
+				lower = append(lower, k)
+			}
+		}
+		if len(lower) > 0 {
+			if k := Pick(g.r, lower); !m.Has(k) {
+				m.Map = append(m.Map, doc.P(k, g.strNode(class+".label")))
+				g.feat("contents:lower-priority-family-key")
+			}
+		}
+	}
 	g.r.Shuffle(len(m.Map), func(i, j int) { m.Map[i], m.Map[j] = m.Map[j], m.Map[i] })
 	return m
 }
